@@ -63,6 +63,11 @@ def handle (line : String) : Json :=
         Json.mkObj [("model", enc (npUnit Generated.tables name dt su args k)),
                     ("spec", enc (specUnit cls name args k))]
       | none => errJson .badOp
+    | some "uexpr" =>
+      -- C08: the unit a unit-expression tree denotes (atoms resolved by pint, composition by the model)
+      match (getField? j "expr").bind UExpr.fromJson? with
+      | some e => Json.mkObj [("unit", e.eval.toJson)]
+      | none => errJson .badOp
     | some "consts" =>
       -- Spec oracle for C08: does a reported constant agree with the reference table?
       match getArr? j "consts" with
